@@ -193,6 +193,12 @@ def account(prop, tier, want_tags, expl, level, extra_note=''):
                 path = common.write_replay(prop, '%s_%s_%s' % (base, key, f['property']), payload)
                 part.violations.append({'obligation': '%s [%s] %s' % (d['name'], key, f['property']), 'replay': path, 'reproduced': reproduced,
                                         'what': '%s | %s' % (f['description'], text)})
+    part.functions += [
+        {'function': 'uscxml_step (emitted)', 'file': 'src/uscxml/transform/ChartToC.cpp:writeFSM -> work/genc/<doc>.c', 'route': 'R2 emit; contract attached by re-declaration in engines/genc/harness_doc.c, loop contract for the DEQUEUE_EVENT back-edge from run_genc.py:step_loop_contract',
+         'verified_per_document': programs},
+        {'function': 'emitted <doc>_on_entry/_on_exit/_on_trans/_is_enabled/_invoke/_global_script functions', 'file': 'ChartToC.cpp:writeExecContent* -> work/genc/<doc>.c', 'route': 'R2 emit; called from uscxml_step through the emitted tables, checked against their bodies'},
+        {'function': 'bit_has_and, bit_clear_all, bit_has_any, bit_or, bit_copy, bit_and_not, bit_and (emitted)', 'file': 'ChartToC.cpp:writeHelpers -> work/genc/<doc>.c', 'route': 'R2 emit; inlined into the per-document proofs (loops bounded by the sizing constants); for all arguments in engines/genc helpers proof when present'},
+        {'function': 'emitted tables (ChartToC::prepare, setStateCompletion, setHistoryCompletion, writeStates, writeTransitions; Predicates.cpp getTransitionDomain/getExitSet/findLCCA)', 'file': 'src/uscxml/transform/ChartToC.cpp:70-432,1936-2141; src/uscxml/util/Predicates.cpp:72-180', 'route': 'postcondition of the C++ code checked on its output per document (closed obligations, harness_tables.h)'}]
     part.programs = programs
     part.extra['documents_validated'] = programs
     part.extra['documents_skipped'] = skipped
@@ -211,9 +217,17 @@ def account(prop, tier, want_tags, expl, level, extra_note=''):
     ]
     if extra_note:
         part.assumptions.append(extra_note)
+    parts = [part]
+    if prop == 'C04':
+        import importlib.util as _u
+        sp = _u.spec_from_file_location('genc_helpers', os.path.join(HERE, 'helpers.py'))
+        hm = _u.module_from_spec(sp)
+        sp.loader.exec_module(hm)
+        files = [(d['name'], os.path.join(wd, re.sub(r'[^A-Za-z0-9]', '_', d['name']) + '.c')) for d in res['docs'] if d['status'] == 'ok']
+        parts.append(hm.run(files))
     lk = {'programs': programs, 'disagreements_checked': len(part.violations),
           'samples': [j for j in part.jobs[:6]] or ['(none)']}
-    return common.finish(prop, tier, level, [part], t0, expl, level_keys=lk)
+    return common.finish(prop, tier, level, parts, t0, expl, level_keys=lk)
 
 
 def replay(path):
